@@ -1,5 +1,6 @@
 import RxProofs.Lemmas.TimedWin
 import RxProofs.Lemmas.TimedMap
+import RxProofs.Lemmas.TimedSim
 /-!
 # C17 — time-window operators respect their window boundaries
 
@@ -232,6 +233,38 @@ ignored; timer 1 fires at 240 and the fallback takes over -/
 example : towmRun (fun _ _ => none) (fun S => [(S, Notif.error "Timeout")])
     [(210, MEv.src (.next "a")), (230, .inner 0 .next), (240, .inner 1 .next), (250, .src (.next "b"))]
     = [(210, .next "a"), (240, .error "Timeout")] := by decide
+
+/-! ## The bridge: the scheduler's `(due, seq)` rule is derived, not assumed
+(`RxModel/TimedSim.lean`: queue ordered by (due time, insertion order), hot source messages scheduled first, the operator's
+timers scheduled by its handlers; same handler functions as the two-stream runs.) -/
+
+/-- **timeout_sim_bridge.**  Subscribed at `sub`: `create_timer()` schedules the first action, then the source's
+messages and the re-armed timers compete in the queue. -/
+theorem timeout_sim_bridge {α} (mode : Due) (other : Nat → TL α) (sub lo : Nat) (msgs : TL α) (h : Mono lo msgs)
+    (hs : sub ≤ lo) :
+    simStart (toOp mode) other sub
+        (some (mode.at sub, { due := mode.at sub, fireAt := max (mode.at sub) sub, myId := 0, first := true }))
+        (toInit mode sub) msgs
+      = toRun mode false other (toInit mode sub) msgs := by
+  rw [simStart_eq_twoStream]
+  exact to_twoStream_eq_run mode other msgs (toInit mode sub) sub lo
+    { due := mode.at sub, fireAt := max (mode.at sub) sub, myId := 0, first := true } h hs rfl rfl rfl rfl
+
+/-- **take_with_time_sim_bridge** (also take_until_with_time: `due` absolute, `fireAt = max sub due`). -/
+theorem take_with_time_sim_bridge {α} (sub due lo : Nat) (msgs : TL α) (h : Mono lo msgs) (hs : sub ≤ lo) :
+    simStart (twtOp (α := α)) (fun _ => []) sub (some (due, ())) () msgs = twtRun false due (max sub due) msgs := by
+  rw [simStart_eq_twoStream]
+  exact twt_twoStream_eq_run _ due (max sub due) msgs sub lo h hs rfl
+
+/-- **skip_with_time_sim_bridge** (also skip_until_with_time). -/
+theorem skip_with_time_sim_bridge {α} (sub due lo : Nat) (msgs : TL α) (h : Mono lo msgs) (hs : sub ≤ lo) :
+    simStart (swtOp (α := α)) (fun _ => []) sub (some (due, ())) false msgs = swtRun false due false msgs := by
+  rw [simStart_eq_twoStream]
+  exact swt_twoStream_eq_run _ due msgs sub lo h hs
+
+/-- the queue at work: the element at 230 was scheduled before the timer due at 230 and runs first -/
+example : simStart (twtOp (α := Nat)) (fun _ => []) 200 (some (230, ())) () [(210, .next 1), (230, .next 2), (231, .next 3)]
+    = [(210, .next 1), (230, .next 2), (230, .completed)] := by decide
 
 /-! ## AsIs — the pinned tree (before `fix: take_last_with_time …`)
 
